@@ -91,7 +91,13 @@ class ExprMixin:
             v = self.ev(module.constants[name], {PC: False, LT: False}, fr)
             if v.types & {"dict", "list", "set"}:
                 # module-level mutable state: a store into it is a write to global state
-                v = replace(v, org=frozenset({("global", 0)}))
+                def _glob(x, depth=0):
+                    if x is None or x.is_bottom:
+                        return x
+                    org = frozenset({("global", 1 if depth else 0)}) if x.types & {"dict", "list", "set"} else x.org
+                    return replace(x, org=org, elem=_glob(x.elem, depth + 1), key=x.key,
+                                   tup=tuple(_glob(t, depth + 1) for t in x.tup) if x.tup is not None else None)
+                v = _glob(v)
             cache[k] = v
         return cache[k]
 
